@@ -89,6 +89,16 @@ def run(tier):
         cases = [dict(w, writes=[{"k": k, "v": (vt + ["NIL", "EMPTY"])[k % 6], "fault": ""} for k in range(6)], readers=sstrun.reader_cfgs(rng),
                       probes=list(range(6)), ranges=[[0, 5], [1, 3], [2, 2]])]
         batches.append(("hugevals-%d" % i, keys, concrete.value_family("huge", vt + ["EMPTY"], rng), cases))
+    # a key in the MIDDLE of the table whose index record ends around the 4 KiB scan window of the record seeker (and around other power-of-two
+    # windows in the thorough tier): the record behind it starts at every offset relative to a window end once
+    sweeps = [range(4030, 4111)] + ([range(960, 1041), range(1990, 2071), range(8130, 8211)] if thorough else [])
+    for si, sw in enumerate(sweeps):
+        cases, vt = [], ["vA", "vB"]
+        w = dict(sstrun.writer_cfg(rng), dcomp=0, icomp=0, writer="stream")
+        for L in sw:
+            cases.append(dict(w, writes=[{"k": k, "v": vt[k % 2], "fault": ""} for k in (1, 3, 5, 7)], readers=sstrun.reader_cfgs(rng), probes=probes,
+                              ranges=[[0, 8], [3, 5], [4, 8], [5, 5]], keylen={"3": L}))
+        batches.append(("window-%d" % si, concrete.key_family("be4", NR, rng), concrete.value_family(concrete.VALUE_FAMILIES[0], vt, rng), cases))
     total = sstrun.run_batches(o, binary, batches, "C03")
     o.evaluations = total
     o.nontrivial = len(tables) - 1 + nbig
